@@ -13,6 +13,9 @@ import time
 import traceback
 
 ROOT = os.path.dirname(os.path.dirname(os.path.abspath(__file__)))
+# evidence and replay files go to /verif unless a seeded-change run redirects them (the
+# evidence committed in /verif only ever comes from runs against /repo itself)
+OUT_ROOT = os.environ.get('VERIF_OUT') or ROOT
 EXIT_OK, EXIT_VIOLATION, EXIT_HARNESS = 0, 1, 3
 
 
@@ -213,7 +216,7 @@ def run_property(prop_id, tier, seed, jobs=None, only=None, verbose=False):
     results.sort(key=lambda r: r['name'])
     known = load_known()
     violations, known_hits, harness_errors, inconclusive = [], [], [], []
-    rdir = os.path.join(ROOT, 'replays', prop_id)
+    rdir = os.path.join(OUT_ROOT, 'replays', prop_id)
     os.makedirs(rdir, exist_ok=True)
     for old_file in os.listdir(rdir):
         if old_file.endswith('.json'):
@@ -248,7 +251,7 @@ def run_property(prop_id, tier, seed, jobs=None, only=None, verbose=False):
                 c['known'] = [k['id'] for k in hits]
                 continue
             nrep += 1
-            path = os.path.join(ROOT, 'replays', prop_id, '%d.json' % nrep)
+            path = os.path.join(OUT_ROOT, 'replays', prop_id, '%d.json' % nrep)
             json.dump({'property': prop_id, 'shard': r['name'], 'params': r['params'],
                        'model': c['model'], 'clause': c['clause'], 'detail': c['detail'],
                        'native_detail': c['native_detail'], 'exc': c['exc'], 'tb': c['tb'],
@@ -386,8 +389,8 @@ def write_evidence(mod, prop_id, tier, seed, results, violations, known_hits,
         'wall_s': round(wall, 2),
         'violations': len(violations),
     }
-    os.makedirs(os.path.join(ROOT, 'evidence'), exist_ok=True)
-    with open(os.path.join(ROOT, 'evidence', prop_id + '.json'), 'w') as f:
+    os.makedirs(os.path.join(OUT_ROOT, 'evidence'), exist_ok=True)
+    with open(os.path.join(OUT_ROOT, 'evidence', prop_id + '.json'), 'w') as f:
         json.dump(ev, f, indent=1, default=str)
 
 
